@@ -100,6 +100,31 @@ def mk_p_versioned(sgn_of):
 REL_NAMES = ['pkg', 'pkg:any', 'pkg:amd64', 'pkg:native', 'pkg3', 'pkg-dev', 'PKG', 'lib.pkg', 'pkg+', 'pk', 'g++', 'p:k:g']
 
 
+def p_unknown_operator(x):
+    """an operator outside the table raises ValueError when it is evaluated - same name and a candidate version; for another
+    name the answer is None and without a candidate version it is False, as for any versioned relationship; the
+    combinators pass these answers on"""
+    op, cand = x
+    rel = deps.VersionedRelationship(name=NAME, operator=op, version='1.0')
+    try:
+        if rel.matches('other', cand) is not None:
+            return 'operator %r: another name answers %r' % (op, rel.matches('other', cand))
+        if rel.matches(NAME) is not False or rel.matches(NAME, None) is not False or rel.matches(NAME, '') is not False:
+            return 'operator %r: no candidate version answers %r' % (op, rel.matches(NAME))
+        tree = deps.AndRelationships.from_relationships(deps.Relationship(name='python3'), deps.OrRelationships.from_relationships(rel, deps.Relationship(name='libbar')), deps.Relationship(name='zlib1g'))
+        if tree.matches('python3', cand) is not True or tree.matches('bash', cand) is not None or tree.matches('libbar', cand) is not True:
+            return 'operator %r in an alternative: the field answers %r for python3, %r for bash, %r for libbar' % (op, tree.matches('python3', cand), tree.matches('bash', cand), tree.matches('libbar', cand))
+    except Exception as e:  # noqa
+        return 'operator %r: a question that does not reach the operator raises %s' % (op, type(e).__name__)
+    try:
+        rel.matches(NAME, cand or '1.0')
+    except ValueError:
+        return None
+    except Exception as e:  # noqa
+        return 'operator %r raises %s, not ValueError' % (op, type(e).__name__)
+    return 'operator %r is evaluated without ValueError' % op
+
+
 def p_names(x):
     """a relationship answers for a candidate only when the candidate name is the name it carries, character for character"""
     rn, cn = x
@@ -166,6 +191,7 @@ def run(ctx):
     ctx.exhaustive.append('all %d result vectors over {True(simple), True(versioned), False, None} up to width %d through '
                           'Or / And / match_relationships' % (len(vectors), W))
     fails = ctx.prop('prop:combinators', vectors, p_vector)
+    fails += ctx.prop('prop:unknown-operator', [(op, c) for op in ('==', '!=', '~', '=>', '=<', '<>', 'eq', '', '>>>', '> =') for c in ('1.0', '0.9', '2', None)], p_unknown_operator)
     fails += ctx.prop('prop:names', [(a, b) for a in REL_NAMES for b in REL_NAMES], p_names)
     vs5 = ['1.0', '1.5', '2.0', '1.0-1', '2:0.1']
     fails += ctx.prop('prop:reassigned', [(o1, a, o2, b, c) for o1 in ('>=', '<<') for o2 in ('>=', '<<', '=') for a in vs5 for b in vs5 for c in vs5], p_reassigned)
